@@ -385,8 +385,14 @@ fn main() {
         "case = (entry name, preserve-paths, patch chain, selection); names = prefix x body, body = components joined by independently chosen separators; space `grammar` (absolute --output): every body of <= {} components over the full 10-class alphabet plus every body of {} components over the core alphabet {{.., a, empty, B.txt}}, x 6 prefixes (empty first component only behind a rooted prefix); space `relout` (relative --output ../out): bodies <= {} full / {} core; one adversarial + one benign entry per archive (patch chain: base and patch both carry the adversarial name, distinct tokens). Non-trivial = the tool materialised the adversarial entry somewhere (its unique content token was found on disk); distinct by (space, name, modes). err_return = nothing was extracted at all (refusal).",
         g.0, g.1, rel.0, rel.1
     );
+    // the binary is shared with other checks and rebuilt by ./check: it must not change under us
+    let stamp = |p: &str| std::fs::metadata(p).ok().map(|m| (m.len(), m.modified().ok()));
+    let stamp0 = stamp(&runner.cli);
     c.run_space("grammar", "");
     c.run_space("relout", "");
+    if stamp(&runner.cli) != stamp0 {
+        c.machinery_errors.push(format!("the CLI binary {} was replaced while the check was running; results mix two builds", runner.cli));
+    }
     let ng = names::enumerate(g.0, g.1);
     let nr = names::enumerate(rel.0, rel.1);
     c.extra_cov.insert(
